@@ -412,7 +412,7 @@ def mode_reaches_formatter(ck):
     ck.ob("C13-O4", sitestr(ct), oki, "%s is initialised from the constructor argument (true -> compact, false -> indented)" % mshort if oki else "%s is not initialised from the constructor argument" % mshort, key="JsonFormatter|mode-init")
     for wf, wn, how in other:
         ck.ob("C13-O4", sitestr(wf, wn), False, "%s is also written in %s (%s)" % (mshort, wf.name.split("::")[-1], how), key="JsonFormatter::m_compact|writer|%s" % wf.name.split("::")[-1])
-    ft = F.fn("QtLogger::SimplePipeline::formatToJson", flat=False)
+    ft = F.fn("QtLogger::SimplePipeline::formatToJson")
     ck.touch(ft)
     pdecl = ft.params[0]["decl"]
     apps = [n for n in ft.calls() if name_is(n.get("callee"), ("append", "appendFormatter", "setFormatter", "operator<<")) and n.get("args")]
@@ -421,7 +421,12 @@ def mode_reaches_formatter(ck):
     while isinstance(a, dict) and a.get("k") in ("cast", "construct") and (a.get("e") or (a.get("args") and len(a["args"]) == 1)) and not name_is(strip_tmpl(a.get("callee") or ""), "QSharedPointer::create"):
         a = skip_copies(a.get("e") or a["args"][0])
     if is_call(a, ("QSharedPointer::create", "std::make_shared", "QSharedPointer<QtLogger::JsonFormatter>::create")) or (a.get("k") == "call" and name_is(strip_tmpl(a.get("callee") or ""), "QSharedPointer::create")):
-        ok = bool(a.get("args")) and is_ref_to(deref_local(ft, a["args"][0]), pdecl)
+        def through_forward(x):
+            x = skip_copies(deref_local(ft, skip_copies(x)))
+            while isinstance(x, dict) and x.get("k") == "call" and name_is(strip_tmpl(x.get("callee") or ""), ("std::forward", "std::move", "forward", "move")) and len(x.get("args", [])) == 1:
+                x = skip_copies(deref_local(ft, skip_copies(x["args"][0])))
+            return x
+        ok = bool(a.get("args")) and is_ref_to(through_forward(a["args"][0]), pdecl)
         ck.ob("C13-O4", sitestr(ft, a), ok, "formatToJson(compact) appends a new JsonFormatter(compact)" if ok else "formatToJson creates the formatter with %s" % [describe(x) for x in a.get("args", [])], key="formatToJson|mode-arg")
     elif a.get("k") == "new" or (a.get("k") == "construct" and "JsonFormatter" in (a.get("class") or "")):
         args = a.get("args", [])
